@@ -19,6 +19,10 @@
     x/iro/keeper/trade.go                        EnableTrading (deferred-trading plans: `MsgCreatePlan.trading_enabled = false`)
     x/iro/types/plan.go                          EnableTradingWithStartTime
     x/rollapp/keeper/rollapp.go                  SetPreLaunchTime
+    x/rollapp/keeper/fraud_proposal.go, hard_fork.go   SubmitRollappFraud, HardFork, ForkAllowed, RevertPendingStates
+    x/lightclient/keeper/rollback.go             RollbackCanonicalClient (freeze), ResolveHardFork (un-freeze on the next state update)
+    x/denommetadata/keeper/rollback.go, x/delayedack/keeper/fraud.go   OnHardFork
+    ibc-go 04-channel SendPacket / 03-connection VerifyPacketCommitment   client status must be Active
 
   Strings are tokens (`Tok = Nat`): 0 is the empty string, 1..999 are valid and pairwise distinct,
   ≥ 1000 are invalid for the validator in question (bad bech32 prefix, bad denom, checksum longer
@@ -216,6 +220,9 @@ structure Ra where
   md : Bool                       -- denom metadata of the IBC denom registered
   bal : List (Nat × Int)          -- balances of the rollapp's IBC denom, by address token
   nOpen : Nat                     -- ghost: number of completed handshakes
+  lastH : Nat := 0                -- latest rollapp height the hub holds a state update for (0 = none)
+  frozen : Bool := false          -- the canonical client is frozen by a hard fork (until the next state update)
+  rev : Nat := 0                  -- latest revision number (= number of hard forks)
   deriving DecidableEq, Repr, Inhabited
 
 inductive ChanKind
@@ -267,6 +274,8 @@ inductive Op
   | canon (r : Nat)
   | chopen (r : Nat) (via : Nat)
   | premd (r : Nat)
+  | update (r : Nat) (n : Nat)
+  | fork (r : Nat) (gov : Bool) (h : Nat)
   | plainch
   | send (c : Nat)
   | recv (c : Nat) (ph : Nat) (p : Pkt)
@@ -307,7 +316,7 @@ def handshake (ra : Ra) (ph : Nat) (p : Pkt) : Ra × Res :=
 
 def newRa (r : Nat) (g : GInfo) : Ra :=
   { id := r, gi := g, launched := false, preLaunch := none, plan := none, te := false, pstart := none, pdur := 0, linked := false,
-    chan := none, tph := 0, md := false, bal := [], nOpen := 0 }
+    chan := none, tph := 0, md := false, bal := [], nOpen := 0, lastH := 0, frozen := false, rev := 0 }
 
 /-- `MsgCreateRollapp`: the message's ValidateBasic (hotfix, genesis info) runs before the keeper looks the rollapp up -/
 def stepCreate (s : St) (r : Nat) (g : Option GInfo) : St × Res :=
@@ -427,6 +436,7 @@ def stepLink2 (s : St) (r : Nat) : St × Res :=
   | none => (s, .err)
   | some ra =>
     if !ra.linked then (s, .err)
+    else if ra.frozen then (s, .err)        -- ibc core: no channel handshake over a client that is not active
     else ({ s with chans := s.chans ++ [(s.nextChan, .second r)], nextChan := s.nextChan + 1 }, .ok)
 
 /-- the light client of rollapp `r` becomes canonical (`SetCanonicalClient`); no channel yet -/
@@ -449,6 +459,7 @@ def stepChopen (s : St) (r : Nat) (via : Nat) : St × Res :=
   | none => (s, .err)
   | some ra =>
     if !ra.linked then (s, .err)
+    else if ra.frozen then (s, .err)        -- ibc core (`ChanOpenInit` / `ChanOpenTry`): the client is not active; no identifier is spent
     else if via == 0 then
       if ra.chan.isSome then ({ s with nextChan := s.nextChan + 1 }, .err)
       else
@@ -468,6 +479,46 @@ def stepPremd (s : St) (r : Nat) : St × Res :=
     else if ra.md then (s, .err)
     else (setRa s { ra with md := true }, .ok)
 
+/-- `MsgUpdateState` for the next `n` blocks of `r`, sent by the rollapp's sequencer (after a hard fork,
+    which opts every sequencer out: opted back in — `MsgUpdateOptInStatus` makes it the proposer again —
+    and with the new revision number).  With a canonical client frozen by a hard fork this is the first
+    state update of the new revision: x/lightclient `AfterUpdateState` → `ResolveHardFork` un-freezes the
+    client.  The block descriptors agree with whatever the canonical client holds (headers vs. state
+    updates is C09's subject). -/
+def stepUpdate (s : St) (r : Nat) (n : Nat) : St × Res :=
+  match getRa s r with
+  | none => (s, .err)
+  | some ra =>
+    if !ra.launched || n == 0 then (s, .err)
+    else (setRa s { ra with lastH := ra.lastH + n, frozen := false }, .ok)
+
+/-- rollapp height of the one consensus state the fixture's canonical client is created with (`canon` /
+    `link`); C10 submits no headers, so below it `RollbackCanonicalClient` finds nothing to freeze at -/
+def canonClientHeight : Nat := 10
+
+/-- `MsgRollappFraudProposal` (x/rollapp `SubmitRollappFraud` → `Keeper.HardFork`), fraud height `h`, the
+    revision number of that height filled in correctly, nobody punished.  In the order of the code:
+    authority; rollapp; `ForkAllowed` (transfers enabled, and not after the last valid height `h - 1`);
+    `RevertPendingStates` (needs a state info; no state is finalized in this model: the dispute period
+    outlasts every trace) leaves the hub with the heights up to `min lastH (h - 1)`; revision bumped; hooks:
+    x/sequencer opts every sequencer out, x/delayedack drops the pending packets above, x/lightclient
+    `RollbackCanonicalClient` (needs the canonical client and a consensus state at or below the new last
+    height) FREEZES the canonical client, x/denommetadata `ClearRegisteredDenoms` forgets which hub denoms
+    the rollapp knows (not the bank metadata).  `TransferProofHeight`, the genesis info, the credited
+    vouchers and the bank metadata are not touched. -/
+def stepFork (s : St) (r : Nat) (gov : Bool) (h : Nat) : St × Res :=
+  if !gov then (s, .err)
+  else
+  match getRa s r with
+  | none => (s, .err)
+  | some ra =>
+    if h == 0 then (s, .err)                                    -- `FraudHeight - 1` wraps around: nothing to revert to
+    else if ra.tph == 0 || decide (h - 1 < ra.tph) then (s, .err)   -- `ForkAllowed`
+    else if ra.lastH == 0 then (s, .err)                        -- no state info
+    else if !ra.linked then (s, .err)                           -- canonical client not found
+    else if decide (min ra.lastH (h - 1) < canonClientHeight) then (s, .err)   -- no consensus state to freeze at
+    else (setRa s { ra with lastH := min ra.lastH (h - 1), frozen := true, rev := ra.rev + 1 }, .ok)
+
 /-- `MsgTransfer` from the hub: `ICS4Wrapper.transferAllowed`.  On a channel over the canonical client
     of `r` that is not the recorded canonical channel (`second`) `GetRollappByPortChan` fails with an
     internal error (no canonical channel recorded) or an invalid-argument error (another channel is
@@ -480,7 +531,10 @@ def stepSend (s : St) (c : Nat) : St × Res :=
   | some (_, .canon r) =>
     match getRa s r with
     | none => (s, .err)
-    | some ra => if ra.tph == 0 then (s, .err) else (s, .ok)
+    | some ra =>
+      if ra.tph == 0 then (s, .err)
+      else if ra.frozen then (s, .err)       -- ibc core `SendPacket`: the channel's client is not active
+      else (s, .ok)
 
 /-- `IBCModule.OnRecvPacket`; on a `second` channel `GetRollappByPortChan`'s error becomes an error
     acknowledgement ("get rollapp id"), whatever the packet -/
@@ -491,12 +545,15 @@ def stepRecv (s : St) (c : Nat) (ph : Nat) (p : Pkt) : St × Res :=
   | some (_, .second r) =>
     match getRa s r with
     | none => (s, .err)
-    | some ra => if ra.chan.isNone then (s, .rerr .noChannel) else (s, .rerr .notCanonical)
+    | some ra =>
+      if ra.frozen then (s, .err)            -- ibc core `RecvPacket`: the client is not active, the message fails
+      else if ra.chan.isNone then (s, .rerr .noChannel) else (s, .rerr .notCanonical)
   | some (_, .canon r) =>
     match getRa s r with
     | none => (s, .err)
     | some ra =>
-      if ra.tph != 0 then (s, lowerRollapp p)
+      -- (a frozen client belongs to an open bridge — `frozen_only_open` — so the order of the two tests is immaterial)
+      if ra.tph != 0 then (if ra.frozen then (s, .err) else (s, lowerRollapp p))
       else if (handshake ra ph p).2 == .ok then (setRa s (handshake ra ph p).1, .ok)
       else (s, (handshake ra ph p).2)      -- error acknowledgement: ibc-go drops the cached context
 
@@ -513,6 +570,8 @@ def step (s : St) : Op → St × Res
   | .canon r => stepCanon s r
   | .chopen r via => stepChopen s r via
   | .premd r => stepPremd s r
+  | .update r n => stepUpdate s r n
+  | .fork r gov h => stepFork s r gov h
   | .plainch => ({ s with chans := s.chans ++ [(s.nextChan, .plain)], nextChan := s.nextChan + 1 }, .ok)
   | .send c => stepSend s c
   | .recv c ph p => stepRecv s c ph p
